@@ -43,6 +43,7 @@ type c17Event struct {
 	By      string   `json:"by"`
 	Rcode   int      `json:"rcode"`
 	Beh     int      `json:"beh"`
+	Init    string   `json:"init"`
 }
 
 type c17Step struct {
@@ -159,7 +160,7 @@ func (w *c17World) refresh() {
 	w.out.Emit(c17Event{Ev: "RefreshEnd", Active: act, Beh: w.beh, Main: empty, Fall: empty, Tried: empty})
 }
 
-func c17Run(t *testing.T, out *vhOut, beh int, rng *rand.Rand, mains, falls []string, backoff int, steps []c17Step, nrand int) {
+func c17Run(t *testing.T, out *vhOut, beh int, rng *rand.Rand, mains, falls []string, backoff int, steps []c17Step, nrand int, initProbe bool) {
 	w := &c17World{t: t, out: out, beh: beh, health: map[string]string{}, rng: rng}
 	VerifNow = func() time.Time { return time.Unix(1_900_000_000, 0).Add(time.Duration(w.ticks) * time.Second) }
 	mk := func(n int) (cs []*UpstreamPlainConfig) {
@@ -173,13 +174,23 @@ func c17Run(t *testing.T, out *vhOut, beh int, rng *rand.Rand, mains, falls []st
 		Logger: slog.New(slog.NewTextHandler(io.Discard, nil)), HealthcheckDomainTmpl: "${RANDOM}.probe.example",
 		UpstreamsAddresses: mk(len(mains)), FallbackAddresses: mk(len(falls)),
 		HealthcheckBackoffDuration: time.Duration(backoff) * time.Second,
+		// with initProbe the constructor runs the start-up health check: nothing
+		// listens on the configured addresses, so every main upstream fails it
+		HealthcheckInitDuration: map[bool]time.Duration{true: 2 * time.Second, false: 0}[initProbe],
 	})
+	wasActive := map[Upstream]bool{}
+	for _, u := range w.h.activeUpstreams {
+		wasActive[u] = true
+	}
 	w.h.activeUpstreams = w.h.activeUpstreams[:0]
 	for i, id := range mains {
 		u := &c17Ups{id: id, w: w}
-		_ = w.h.upstreams[i].upstream.Close()
+		real := w.h.upstreams[i].upstream
+		_ = real.Close()
 		w.h.upstreams[i].upstream = u
-		w.h.activeUpstreams = append(w.h.activeUpstreams, u)
+		if wasActive[real] {
+			w.h.activeUpstreams = append(w.h.activeUpstreams, u)
+		}
 		w.health[id] = "up"
 	}
 	for i, id := range falls {
@@ -191,7 +202,19 @@ func c17Run(t *testing.T, out *vhOut, beh int, rng *rand.Rand, mains, falls []st
 		falls = []string{}
 	}
 	empty := []string{}
-	out.Emit(c17Event{Ev: "Reset", Main: mains, Fall: falls, Backoff: backoff, Beh: beh, Active: empty, Tried: empty})
+	initS := "none"
+	if initProbe {
+		initS = "alldown"
+	}
+	var act0 []string
+	for _, u := range w.h.activeUpstreams {
+		act0 = append(act0, u.String())
+	}
+	sort.Strings(act0)
+	if act0 == nil {
+		act0 = empty
+	}
+	out.Emit(c17Event{Ev: "Reset", Main: mains, Fall: falls, Backoff: backoff, Beh: beh, Active: act0, Tried: empty, Init: initS})
 	all := append(append([]string{}, mains...), falls...)
 	hs := []string{"up", "up", "down", "down", "servfail", "garbage"}
 	do := func(s c17Step) {
@@ -240,7 +263,7 @@ func TestVerifC17(t *testing.T) {
 		vhReadJSON(t, p, &behs)
 		for _, b := range behs {
 			// Forward_sim.cfg: two mains, two fallbacks, back-off 3
-			c17Run(t, out, beh, rng, []string{"m1", "m2"}, []string{"f1", "f2"}, 3, b, 0)
+			c17Run(t, out, beh, rng, []string{"m1", "m2"}, []string{"f1", "f2"}, 3, b, 0, false)
 			beh++
 		}
 	}
@@ -248,7 +271,7 @@ func TestVerifC17(t *testing.T) {
 	for i := 0; i < n; i++ {
 		mains := []string{"m1", "m2", "m3"}[:1+rng.Intn(3)]
 		falls := []string{"f1", "f2"}[:rng.Intn(3)]
-		c17Run(t, out, beh, rng, mains, falls, 1+rng.Intn(4), nil, 30+rng.Intn(60))
+		c17Run(t, out, beh, rng, mains, falls, 1+rng.Intn(4), nil, 30+rng.Intn(60), i%5 == 0)
 		beh++
 	}
 	_ = errors.New
